@@ -71,6 +71,15 @@ Proof.
   exact (conj select_finds_due (conj eligible_spec (fun c t0 ops => proj1 (proj1 (inv_reachable c t0 ops))))).
 Qed.
 
+(* ... and it is actually claimed: from any reachable state, at most (number of rows) consecutive polls of one
+   worker — with no other operation and no tick in between — claim the due row at its current version, i.e.
+   return it to the caller (payload decodes), dead-letter it (payload does not parse) or raise after the claim
+   (payload unusable).  Premise: the lock a claim writes hides the row at once (lock_duration >= the SQL clock skew) *)
+Theorem C08_at_least_once_drain : forall c p s r,
+  eff_skew c <= lock_ms c -> inv s -> In r (rows s) -> eligible c s r = true ->
+  exists k, (1 <= k <= length (rows s))%nat /\ In (r_id r, r_ver r) (claims (run c (repeat (PollOne p) k) s)).
+Proof. exact at_least_once_drain. Qed.
+
 (* a row whose attempts reached its max_attempts is moved to the DLQ by the sweep with id, type+payload and
    attempts preserved — never deleted; no other row is touched *)
 Theorem C08_exhausted_moved_not_deleted : forall c p s, inv s ->
@@ -163,13 +172,20 @@ Proof. vm_compute. repeat split. Qed.
 
 (* the premises of C08_exclusive_lock / C08_no_stall are met by the default configuration in a UTC process *)
 Example C08_premises_default :
-  eff_skew ex_cfg <= 0 /\ schema_default_max_attempts <= qmax ex_cfg /\ message_default_max_attempts <= qmax ex_cfg
+  eff_skew ex_cfg <= 0 /\ eff_skew ex_cfg <= lock_ms ex_cfg /\ schema_default_max_attempts <= qmax ex_cfg /\ message_default_max_attempts <= qmax ex_cfg
   /\ forallb (op_limits_ok ex_cfg) [PushTx 0 message_default_max_attempts; Push 5; PollOne 0] = true
   /\ inv (run ex_cfg ex_ops (init 0)).
 Proof.
   split; [vm_compute; discriminate|]. split; [vm_compute; discriminate|]. split; [vm_compute; discriminate|].
-  split; [vm_compute; reflexivity|apply inv_reachable].
+  split; [vm_compute; discriminate|]. split; [vm_compute; reflexivity|apply inv_reachable].
 Qed.
+
+(* the drain premise is met by a concrete state: a due row behind an earlier due one is claimed by the second poll *)
+Example C08_drain_example :
+  let s := run ex_cfg [Push 0; Push 0] (init 0) in
+  existsb (eligible ex_cfg s) (rows s) = true
+  /\ claims (run ex_cfg (repeat (PollOne 0%nat) 2) s) = [(2, 0); (1, 0)].
+Proof. vm_compute. split; reflexivity. Qed.
 
 (* a cut inside move_to_dlq after the DELETE and before the INSERT leaves the row in the queue; the whole move
    puts it into the DLQ *)
@@ -185,6 +201,7 @@ Print Assumptions C08_conservation_exactly_one.
 Print Assumptions C08_exclusive_cas.
 Print Assumptions C08_exclusive_lock.
 Print Assumptions C08_at_least_once_select.
+Print Assumptions C08_at_least_once_drain.
 Print Assumptions C08_exhausted_moved_not_deleted.
 Print Assumptions C08_replay_unchanged.
 Print Assumptions C08_processor_ack_after_handler.
